@@ -6,9 +6,13 @@ mod c08;
 mod c09;
 mod c10;
 mod c11;
+mod c13;
+mod c14;
+mod c15;
 mod c16;
 mod c17;
 mod c18;
+mod c19;
 mod eng;
 mod probe;
 mod gen;
@@ -64,6 +68,10 @@ fn main() {
         "C08" => c08::run(&mut rng, &mut out, &tier),
         "C10" => c10::run(&mut rng, &mut out, &tier),
         "C18" => c18::run(&mut rng, &mut out, &tier),
+        "C13" => c13::run(&mut rng, &mut out, &tier),
+        "C14" => c14::run(&mut rng, &mut out, &tier),
+        "C15" => c15::run(&mut rng, &mut out, &tier),
+        "C19" => c19::run(&mut rng, &mut out, &tier),
         "probe" => probe::run(),
         "C01" => c01::run(&mut rng, &mut out, &tier),
         _ => {
